@@ -229,3 +229,10 @@ def run(ck):
               "a Content-Length or chunked body that reaches the receiving parser in several reads is completed: the progress counter of the "
               "body routine advances by what was appended before the routine asks for more, and is cleared only when the body is done -- "
               "otherwise a message longer than one read never round-trips", min_instances=5)
+
+    # ---------------- facts shared with C05 ----------------
+    # a response written through a stream object that is moved (into a lambda, a smart pointer, another variable) must still arrive whole
+    ck.borrow("C05", ["C05-R4"], "C02-R6",
+              "what a response writer or response stream has buffered survives growing and moving the buffer: offsets are measured from the "
+              "start of the storage, never from pbase(), and a moved-to buffer continues at the source's write position",
+              key_pred=lambda k: k.startswith("DynamicStreamBuf/"), min_instances=3)
